@@ -399,19 +399,14 @@ func ruleIDX3(c *Ctx) []Ob {
 							break
 						}
 						// evidence: a non-nil Tx.Get of a document key guards the decrement
-						var guards []edge
-						for _, s := range r.model.sinks {
-							if s.Fn != fn || s.Op != "Get" || !sinkHasSkel(s, r.DocSkel) {
-								continue
+						guards, _ := c.existenceEdges(fn, func(k ssa.Value) bool {
+							for _, t := range c.keys().evalAt(k) {
+								if t.skeleton() == r.DocSkel {
+									return true
+								}
 							}
-							gc, ok := s.Call.(*ssa.Call)
-							if !ok {
-								continue
-							}
-							for _, v := range resultValues(gc, 0) {
-								guards = append(guards, nonNilEdges(fn, sameValue(v))...)
-							}
-						}
+							return false
+						})
 						if !guardedBy(fn, b, guards) {
 							verdict, msg = VIOLATED, "the counter is decremented without evidence that the document exists (no non-nil lookup of its key guards the decrement): deleting an absent id makes Count disagree with the stored documents"
 						} else {
@@ -762,21 +757,11 @@ func ruleID2(c *Ctx) []Ob {
 		key := c.fname(wc.Fn) + "/probe before save"
 		pos := relPath(c, wc.Call.Pos())
 		kbase := stripConv(wc.Key)
-		var guards []edge
-		allCalls(wc.Fn, func(call ssa.CallInstruction) {
-			gc, ok := call.(*ssa.Call)
-			if !ok || !c.isInvokeOf(call, "store", "Tx", "Get") {
-				return
-			}
-			gk := stripConv(gc.Common().Args[0])
-			if gk != kbase && !sameOrigin(gk, kbase) {
-				return
-			}
-			for _, v := range resultValues(gc, 0) {
-				guards = append(guards, nonNilEdges(wc.Fn, sameValue(v))...)
-				guards = append(guards, nilEdges(wc.Fn, sameValue(v))...)
-			}
+		ex, ab := c.existenceEdges(wc.Fn, func(k ssa.Value) bool {
+			gk := stripConv(k)
+			return gk == kbase || sameOrigin(gk, kbase)
 		})
+		guards := append(ex, ab...)
 		if guardedBy(wc.Fn, wc.Call.Block(), guards) {
 			o.add(OK, key, pos, "the save is reached only through a nil test of Tx.Get on the same key")
 			continue
